@@ -1,4 +1,5 @@
 import Ccp.Proofs.Input
+import Ccp.Proofs.InputArgs
 /-!
 # C09 — all input forms are equivalent and file save/load is the identity
 
@@ -246,6 +247,131 @@ theorem constants_as_modelled :
     Gen.saveJoinSep = "\n" ∧ Gen.saveEndswith = "\n" ∧ Gen.saveTerminator = "\n" ∧
     Gen.saveOpenMode = "w" ∧ Gen.saveOpenHasNewlineArg = false := by decide
 
+/-! ## every other argument, every other thing at a path: rejected (model `Ccp.Model.InputArgs`) -/
+
+/-- **The extended reader is the old one on the old inputs.**  `loadArg` (any Python object as `config`, a
+file system whose paths may also hold directories and undecodable files) agrees with `load` on the five
+input forms over a file system of plain files: same tree, or the same exception. -/
+theorem loadArg_conservative (cfg : Tree.Cfg) (fs : Path → Option Text) (i : Input) :
+    loadArg cfg (nodesOf fs) (.input i) = (load cfg fs i).mapError Exc.ofErr := by
+  unfold loadArg load
+  rw [initLinesArg_conservative]
+  cases initLines fs i <;> rfl
+
+/-- a `list` / `tuple` given item by item: when every item is a `str`, it is the list form -/
+theorem str_items_are_the_list (cfg : Tree.Cfg) (fs : Path → Node) (ls : List Str) :
+    loadArg cfg fs (.coll .list (ls.map .str)) = .ok (Tree.parse cfg ls) ∧
+    loadArg cfg fs (.coll .tuple (ls.map .str)) = .ok (Tree.parse cfg ls) := by
+  unfold loadArg
+  rw [initLinesArg_strs fs .list (Or.inl rfl), initLinesArg_strs fs .tuple (Or.inr rfl)]
+  exact ⟨rfl, rfl⟩
+
+/-- **Nothing else is taken for a configuration.**  A collection is loaded only if it is a `list` or a
+`tuple` and every item is a `str` (then the tree is the one of these lines): a non-`str` item, another
+Sequence class (deque, bytes, range …), a set or a dict never produce a tree.  An object whose iteration
+raises and an object without `len()` are rejected whatever they hold. -/
+theorem only_str_lists_load (cfg : Tree.Cfg) (fs : Path → Node) :
+    (∀ k items t, loadArg cfg fs (.coll k items) = .ok t →
+        (k = .list ∨ k = .tuple) ∧ ∃ ls, items = ls.map .str ∧ t = Tree.parse cfg ls) ∧
+    (∀ n, ∃ e, loadArg cfg fs (.noIter n) = .error e) ∧
+    loadArg cfg fs .unsized = .error .typeError := by
+  refine ⟨?_, ?_, rfl⟩
+  · intro k items t h
+    unfold loadArg at h
+    cases hi : initLinesArg fs (.coll k items) with
+    | error e => rw [hi] at h; cases h
+    | ok ls =>
+      rw [hi] at h
+      obtain ⟨hk, hitems⟩ := initLinesArg_coll_ok fs k items ls hi
+      refine ⟨hk, ls, hitems, ?_⟩
+      cases h; rfl
+  · intro n
+    cases n with
+    | zero => exact ⟨.valueError, rfl⟩
+    | succ m => exact ⟨.invalidParameters, rfl⟩
+
+/-- the exception classes of the rejections: an item of a foreign type → `InvalidParameters` (whatever the
+collection class); a set / dict of acceptable items → `ValueError`; another Sequence class of acceptable
+items → `InvalidParameters`; a `BaseCfgLine` object inside a list → `ValueError` -/
+theorem rejection_classes (cfg : Tree.Cfg) (fs : Path → Node) (k : Kind) (items : List Item) :
+    (Item.other ∈ items → loadArg cfg fs (.coll k items) = .error .invalidParameters) ∧
+    (items.all Item.accepted = true → k = .sized → loadArg cfg fs (.coll k items) = .error .valueError) ∧
+    (items.all Item.accepted = true → k = .seq → loadArg cfg fs (.coll k items) = .error .invalidParameters) ∧
+    (items.all Item.accepted = true → Item.cfgLine ∈ items → (k = .list ∨ k = .tuple) →
+        loadArg cfg fs (.coll k items) = .error .valueError) := by
+  have hne : ∀ x : Item, x ∈ items → ∃ a l, items = a :: l := by
+    intro x hx; cases items with
+    | nil => cases hx
+    | cons a l => exact ⟨a, l, rfl⟩
+  have hacc : items.all Item.accepted = true → readColl (.coll k items) =
+      (if k = .sized then .error .valueError else .ok (k, items)) := by
+    intro ha
+    unfold readColl
+    have : elementsHaveLen (.coll k items) ≠ some false := by
+      cases items with
+      | nil => simp [elementsHaveLen]
+      | cons a l => simp only [elementsHaveLen, ha]; decide
+    rw [if_neg this]
+    cases k <;> rfl
+  refine ⟨?_, ?_, ?_, ?_⟩
+  · intro ho
+    obtain ⟨a, l, e⟩ := hne _ ho
+    have hall : items.all Item.accepted = false := by
+      apply Bool.eq_false_iff.mpr
+      intro hall
+      have := List.all_eq_true.mp hall _ ho
+      cases this
+    have : readColl (.coll k items) = .error .invalidParameters := by
+      unfold readColl
+      subst e
+      simp only [elementsHaveLen, hall, if_true]
+    unfold loadArg
+    subst e
+    simp only [initLinesArg, this]; rfl
+  · intro ha hk
+    subst hk
+    unfold loadArg
+    simp only [initLinesArg, hacc ha]; rfl
+  · intro ha hk
+    subst hk
+    unfold loadArg
+    simp only [initLinesArg, hacc ha]; rfl
+  · intro ha hc hk
+    have hm : items.mapM Item.str? = none := by
+      cases hm : items.mapM Item.str? with
+      | none => rfl
+      | some ls =>
+        have := mapM_str_inv _ _ hm
+        subst this
+        simp at hc
+    unfold loadArg
+    rcases hk with e | e <;> subst e <;> simp only [initLinesArg, hacc ha] <;>
+      simp [bind, Except.bind, initColl, hm, Except.map]
+
+/-- a one-line string (or Path) naming a directory, a file that cannot be read, or a file the codec cannot decode,
+is rejected — nothing is read as "the file's text" — with `OSError` resp. `UnicodeDecodeError` -/
+theorem bad_path_nodes_rejected (cfg : Tree.Cfg) (fs : Path → Node) (s : Str) (h : (splitlines s).length = 1) :
+    (fs s = .dir → loadArg cfg fs (.input (.str s)) = .error .osError ∧
+                   loadArg cfg fs (.input (.path s)) = .error .osError) ∧
+    (fs s = .unreadable → loadArg cfg fs (.input (.str s)) = .error .osError ∧
+                          loadArg cfg fs (.input (.path s)) = .error .osError) ∧
+    (fs s = .undecodable → loadArg cfg fs (.input (.str s)) = .error .unicodeDecodeError ∧
+                           loadArg cfg fs (.input (.path s)) = .error .unicodeDecodeError) := by
+  refine ⟨?_, ?_, ?_⟩ <;> intro hn <;>
+    simp [loadArg, initLinesArg, readStrN, h, readConfigFileN, hn, bind, Except.bind, Except.map]
+
+/-- `save_as`: a target that cannot be opened raises (IsADirectoryError, FileNotFoundError) whatever the
+lines; a writable target receives exactly the text of `saveAs` when the codec can encode it (UTF-8 always
+can), and `UnicodeEncodeError` is raised otherwise; `read_config_file` on a finished object is refused. -/
+theorem save_failures (codec : Codec) (sep : Str) (ls : List Str) (p : Path) :
+    saveAsTo codec .directory sep ls = .error .isADirectoryError ∧
+    saveAsTo codec .noParent sep ls = .error .fileNotFoundError ∧
+    saveAsTo .utf8 .writable sep ls = .ok (saveAs sep ls) ∧
+    (saveAsTo .latin1 .writable sep ls =
+      if (saveText ls).all (fun c => c.toNat < 256) then .ok (saveAs sep ls) else .error .unicodeEncodeError) ∧
+    rereadFinished p = .error .requirementFailure :=
+  ⟨rfl, rfl, rfl, rfl, rfl⟩
+
 /-! ## non-vacuity -/
 
 def iosCfg : Tree.Cfg := { ios := true, delims := ['!'], ignoreBlank := false }
@@ -279,5 +405,14 @@ example : (List.range 3).map (fun n => iter (cycle iosCfg LF) n (saveAs LF ["a\r
     = ["a\rb\n".toList, "a\nb\n".toList, "a\nb\n".toList] := by decide
 example : (List.range 3).map (fun n => iter (cycle iosCfg CRLF) n "a\n".toList)
     = ["a\n".toList, "a\r\n".toList, "a\r\n".toList] := by decide
+
+-- the rejection side: concrete arguments
+example : loadArg iosCfg (fun _ => .absent) (.coll .list [.str "a".toList, .other]) = .error .invalidParameters := by rfl
+example : loadArg iosCfg (fun _ => .absent) (.coll .sized [.str "a".toList]) = .error .valueError := by rfl
+example : loadArg iosCfg (fun _ => .absent) (.coll .seq []) = .error .invalidParameters := by rfl
+example : loadArg iosCfg (fun _ => .absent) (.coll .tuple [.str "a".toList, .cfgLine]) = .error .valueError := by rfl
+example : (splitlines "d.cfg".toList).length = 1 ∧ loadArg iosCfg (fun _ => .dir) (.input (.str "d.cfg".toList)) = .error .osError := ⟨by decide, by rfl⟩
+example : saveAsTo .latin1 .writable LF ["a€".toList] = .error .unicodeEncodeError ∧
+    saveAsTo .latin1 .writable LF ["aé".toList] = .ok "aé\n".toList := ⟨by rfl, by rfl⟩
 
 end Ccp.C09
